@@ -385,6 +385,7 @@ type Contract struct {
 	File     string
 	Line     int
 	Induct   string // lemma: induction variable
+	UsesLemmas []*SCall
 	Notes    []string
 }
 
@@ -651,6 +652,14 @@ func ReadContractFile(path, pkgPath string) ([]*Contract, error) {
 				tgt.Replay = rest
 			case "induction":
 				tgt.Induct = rest
+			case "uses":
+				e, err := ParseSpecExpr(rest)
+				if err != nil {
+					return nil, fmt.Errorf("%s:%d: %v", path, l.n, err)
+				}
+				if c, ok := e.(*SCall); ok {
+					tgt.UsesLemmas = append(tgt.UsesLemmas, c)
+				}
 			case "note":
 				tgt.Notes = append(tgt.Notes, rest)
 			case "loop":
